@@ -160,6 +160,16 @@ impl Lift for SubWordValue {
 
             // Next we have to pull the shift amount (if any) out of the value
             let (value, shift) = SubWordValue::get_shift(value);
+
+            // The shift amount is an arbitrary constant from the bytecode, so the region it
+            // describes may not exist in a word at all, in which case there is no sub-word
+            let region_fits = offset
+                .checked_add(shift)
+                .and_then(|start| start.checked_add(length))
+                .map_or(false, |end| end <= WORD_SIZE_BITS);
+            if !region_fits {
+                return None;
+            }
             let value = value.clone().transform_data(insert_sub_words);
 
             let value = match value.data() {
